@@ -385,13 +385,11 @@ package jsonata
 //@   requires f != nil
 //@   ensures result != nil && fresh(result) && result.Received == received
 //@   assigns nothing
-//@   trusted
 //@ func newArgTypeError
 //@   props C12 C20 C09
 //@   requires f != nil
 //@   ensures result != nil && fresh(result) && result.Which == which
 //@   assigns nothing
-//@   trusted
 
 //@ pred lastIsVariadic(f *lambdaCallable) = len(f.params) > 0 && f.params[len(f.params) - 1].Option == jparse.ParamVariadic
 //@ pred ctxSub(f *lambdaCallable, argc int) = argc < len(f.params) && f.params[0].Option == jparse.ParamContextable
@@ -981,3 +979,127 @@ package jsonata
 //@   ensures [C03:missing-operand] (ret("eval#0", 1) == nil && !valid(ret("eval#0", 0))) ==> (r1 == nil && !valid(r0))
 //@   ensures [C03:wrong-type] (ret("eval#0", 1) == nil && valid(ret("eval#0", 0)) && !isNumV(ret("eval#0", 0))) ==> (evalErrIs(r1, ErrNonNumberRHS) && !valid(r0))
 //@   ensures [C03:negate] (ret("eval#0", 1) == nil && isF64V(ret("eval#0", 0))) ==> (r1 == nil && kind(r0) == 14 && same(fval(r0), -fval(res(ret("eval#0", 0)))))
+
+// --- ParamCount of every callable: non-negative (callers size argument lists with it) ---------------------------------------
+//@ func (*goCallable).ParamCount
+//@   props C09 C20
+//@   implements jtypes.iface:Callable.ParamCount
+//@   requires c != nil
+//@ func (*lambdaCallable).ParamCount
+//@   props C09 C12
+//@   implements jtypes.iface:Callable.ParamCount
+//@   requires f != nil
+//@ func (*partialCallable).ParamCount
+//@   props C09 C12
+//@   implements jtypes.iface:Callable.ParamCount
+//@   requires f != nil
+//@   loop 0 invariant count >= 0 && -1 <= $i0 && count <= $i0 + 1
+//@ func (*transformationCallable).ParamCount
+//@   props C09
+//@   implements jtypes.iface:Callable.ParamCount
+//@ func (*regexCallable).ParamCount
+//@   props C09 C17
+//@   implements jtypes.iface:Callable.ParamCount
+//@ func (*matchCallable).ParamCount
+//@   props C09 C17
+//@   implements jtypes.iface:Callable.ParamCount
+//@ func (*undefinedCallable).ParamCount
+//@   props C09
+//@   implements jtypes.iface:Callable.ParamCount
+//@ func (*chainCallable).ParamCount
+//@   props C09
+//@   implements jtypes.iface:Callable.ParamCount
+
+// --- C07/C09: the object transformation | pattern | updates, deletes | -------------------------------------------------------
+// evalObjectTransformation builds the function from the node's parts with the current scope; Call works on a JSON
+// round-trip copy of its argument (clone), evaluates the pattern on the copy, and for every selected object sets the
+// members of the update object and removes the deleted names.
+//@ nonnil field jsonata.transformationCallable.pattern jsonata.transformationCallable.updates
+//@ func evalObjectTransformation
+//@   props C07 C09 C12
+//@   requires node != nil
+//@   ensures r1 == nil && valid(r0) && canif(r0)
+//@   atstore[C07:pattern-of-the-node] jsonata.transformationCallable.pattern requires value == node.Pattern
+//@   atstore[C07:updates-of-the-node] jsonata.transformationCallable.updates requires value == node.Updates
+//@   atstore[C07:deletes-of-the-node] jsonata.transformationCallable.deletes requires value == node.Deletes
+//@   atstore[C12:transform-keeps-definition-site-scope] jsonata.transformationCallable.env requires value == env
+//@ func (*transformationCallable).validateArgs
+//@   props C07 C09
+//@   requires f != nil
+//@   ensures [C07:one-argument] len(argv) != 1 ==> result != nil
+//@   ensures result == nil ==> len(argv) == 1
+//@   assigns nothing
+//@ func (*transformationCallable).clone
+//@   props C07 C09
+//@   requires f != nil && ifaceable(v)
+//@   ensures r1 != nil ==> !valid(r0)
+//@   ensures ifaceable(r0)
+//@ func (*transformationCallable).Call
+//@   props C07 C09
+//@   requires f != nil && argsUsable(argv)
+//@   ensures r1 != nil ==> !valid(r0)
+//@ func (*transformationCallable).updateEntries
+//@   props C07 C09
+//@   requires f != nil && kind(item) == 21 && canif(item)
+//@ func (*transformationCallable).deleteEntries
+//@   props C07 C09
+//@   requires f != nil && f.deletes != nil && kind(item) == 21 && canif(item)
+
+// --- C12/C09: f ~> g, the chain of two functions; match objects; the function that has no value ---------------------------
+// A chain applies its functions in order, each to the result of the one before (the first to the call's first
+// argument). Its members are functions: a chain never holds a nil member.
+//@ nonnil elems jtypes.Callable
+//@ func (*chainCallable).Call
+//@   props C12 C09
+//@   requires f != nil && argsUsable(argv)
+//@   ensures r1 != nil ==> !valid(r0)
+//@   ensures ifaceable(r0)
+//@   loop 0 calls [C12:every-function-of-the-chain] iface:Call#0
+//@   atcall[C12:fed-the-previous-result] iface:Call#0 requires callee_recv == fn && len(callee_arg1) == 1 && callee_arg1[0] == v
+//@   loop 0 invariant -1 <= $i0 && ifaceable(v) && err == nil
+//@ func (*matchCallable).Call
+//@   props C17 C09
+//@   requires f != nil
+//@   ensures r1 == nil && valid(r0) && canif(r0)
+//@ func (*undefinedCallable).Call
+//@   props C09
+//@   ensures r1 == nil && !valid(r0)
+//@   assigns nothing
+
+// --- C14: $lookup(o, k) is the field selection of k on o (it runs the evaluator's own field selection on a name node
+// holding k); a result sequence is unwrapped as at the end of a path --------------------------------------------------------
+//@ func lookup
+//@   props C14 C09
+//@   requires ifaceable(v)
+//@   ensures [C14:selection-error-propagates] ret("evalName#0", 1) != nil ==> (r0 == nil && r1 == ret("evalName#0", 1))
+//@   ensures [C14:absent-member-has-no-value] (ret("evalName#0", 1) == nil && !valid(ret("evalName#0", 0))) ==> (r0 == nil && r1 == nil)
+//@   atcall[C14:field-selection-of-the-name] evalName#0 requires streq(callee_node.Value, name) && callee_data == v
+
+// --- C20/C09: context and undefined handlers of the built-in functions: total on any argument list ---------------------------
+//@ func undefinedHandlerAppend
+//@   props C09 C20
+//@   assigns nothing
+//@ func contextHandlerSubstring
+//@   props C09 C20
+//@   assigns nothing
+//@ func contextHandlerSubstringBeforeAfter
+//@   props C09 C20
+//@   assigns nothing
+//@ func contextHandlerPad
+//@   props C09 C20
+//@   assigns nothing
+//@ func contextHandlerSplit
+//@   props C09 C20
+//@   assigns nothing
+//@ func contextHandlerMatch
+//@   props C09 C20
+//@   assigns nothing
+//@ func contextHandlerReplace
+//@   props C09 C20
+//@   assigns nothing
+//@ func contextHandlerFormatNumber
+//@   props C09 C20
+//@   assigns nothing
+//@ func isStringOrCallable
+//@   props C09 C20
+//@   assigns nothing
